@@ -274,15 +274,22 @@ Definition nonew (b : N) (D : list deliv) : bool :=
 Definition same_ev (a b : event) : bool :=
   vid_eqb (ev_id a) (ev_id b) && (ev_type a =? ev_type b)%N && (ev_check a =? ev_check b)%N.
 
-(* all events at or above the awaited block are deliveries of one event, first seen (new) inside
-   the window of the acceptance *)
+(* the events at or above the awaited block form a chain of new events, each first seen inside the
+   window of its predecessor (the first one inside the window of the acceptance) and each for a check
+   block at least that of its predecessor; re-deliveries of the current last event and events for lower
+   check blocks do not matter.  The result is the last event of the chain and its first delivery time.
+   An event with the same work id and transaction hash but another transmit block is a different
+   event (the transaction was mined again after a re-org). *)
 Fixpoint settledD (c : ccfg) (tj : Z) (b : N) (D : list deliv) : option (Z * event) :=
   match D with
   | [] => None
   | d :: D' =>
     if (b <=? ev_check (d_ev d))%N then
       match settledD c tj b D' with
-      | Some (tp, e0) => if same_ev e0 (d_ev d) then Some (tp, e0) else None
+      | Some (tp, e0) =>
+          if same_ev e0 (d_ev d) then Some (tp, e0)                                   (* the same event again *)
+          else if (ev_check (d_ev d) <? ev_check e0)%N then Some (tp, e0)             (* for an older report: no effect *)
+          else if d_new d && within c tp (d_t d) then Some (d_t d, d_ev d) else None  (* a different, new event takes over *)
       | None => if dlow b D' && d_new d && within c tj (d_t d) then Some (d_t d, d_ev d) else None
       end
     else settledD c tj b D'
